@@ -54,14 +54,14 @@ def main():
                 "replay_cmd_template": "./check replay {path}",
                 "engine": "lean-model+correspondence",
                 "level_claimed": {"category": "proof", "text": "Machine-checked Lean 4 theorems about a model of the macro: " + text, "design_ref": ref},
-                "level_note": COMMON_NOTE + "FieldOk (what parse_field guarantees about an accepted field) is a hypothesis of the accessor theorems until C09's parseField_ok discharges it.",
+                "level_note": COMMON_NOTE + "FieldOk (the hypothesis of the accessor theorems) is discharged for every field definition the model's parse_field returns, for arbitrary attribute tokens, by Bb.parseField_ok (C09.accepted_fieldOk).",
                 "technique": "Lean 4 proof (kernel-checked theorems over a model of the proc macro) + differential correspondence run against /repo",
             })
         else:
             na.append({"property_id": pid, "reason": "not claimed yet: the Lean theorems / correspondence for this property are still under construction in this session (planned, see DESIGN.md §6); no other technique is substituted"})
     m = {
         "version": 1,
-        "setup_cmd": "cd /verif/lean && lake build BitbybitModel bbdriver",
+        "setup_cmd": "cd /verif/lean && lake build BitbybitModel BitbybitModel.All bbdriver",
         "hooks": {"guard": "cargo feature verif_hooks (bitbybit/Cargo.toml)",
                   "enable": "harness crates depend on bitbybit with features=[\"verif_hooks\"]; BITBYBIT_VERIF_DUMP_DIR selects the dump directory",
                   "baseline_off_cmd": "cd /repo && cargo test --workspace --no-fail-fast --offline",
